@@ -796,7 +796,11 @@ def mat_fixture(n):
     for k in ("WX", "WXY", "WY", "SIG"):
         base.append(Parameter.create(k, others[k]))
     base = Parameters.create(base)
-    fx = {"nm": nm, "rvs1": rvs1, "rvs": rvs, "base": base, "others": others, "rvs_without_block": RandomVariables.create([d2, d3])}
+    # the same covariance parameters in two blocks (the layout of inter-occasion variability: one block of etas per occasion)
+    d1a = JointNormalDistribution(tuple("OCA%d" % i for i in range(n)), "IOV", Matrix([0] * n), Matrix(nm))
+    d1b = JointNormalDistribution(tuple("OCB%d" % i for i in range(n)), "IOV", Matrix([0] * n), Matrix(nm))
+    fx = {"nm": nm, "rvs1": rvs1, "rvs": rvs, "base": base, "others": others, "rvs_without_block": RandomVariables.create([d2, d3]),
+          "rvs_shared": RandomVariables.create([d1a, d1b, d2, d3])}
     _MAT_CACHE[n] = fx
     return fx
 
@@ -1012,6 +1016,15 @@ def check_conversions(n, vals):
         # inverse of the sd/corr form gives the values back
         Rg = [[float(sc[nm[i][j]]) for j in range(n)] for i in range(n)]
         cmpm(sdcorr_inv(Rg), A, "sdcorr^-1(parameters_sdcorr(x))")
+        # two blocks that share their parameters: every parameter is converted once
+        sc2 = fx["rvs_shared"].parameters_sdcorr(dict(values))
+        for i, j in pos:
+            ncmp += 1
+            want = R[i, j]
+            g = sc2.get(nm[i][j])
+            if g is None or not abs(float(g) - want) <= 1e-7 * max(1.0, abs(want)):
+                fails.append(("sdcorr", f"parameters_sdcorr with two blocks sharing their parameters: {nm[i][j]} -> {g}, definition gives {want}"))
+                break
     except REFUSALS as ex:
         fails.append(("conversion-refused", f"conversion of a positive definite matrix refused: {type(ex).__name__}: {ex}"))
     return fails, ncmp
